@@ -48,6 +48,8 @@ def execute(scenario):
             if st["done_before"]:
                 break
             k = st["k"]
+            if st.get("exc") == "EndOfEpisodeError":
+                break       # the account was ruined (C09's business): nothing further to judge here
             if st.get("exc") is not None:
                 violate("unexpected_exception", "step {} raised {}: {} [{}]".format(k, st["exc"], st.get("msg"), st.get("site")), op=k,
                         exc=st["exc"], where="step", site=st.get("site"))
@@ -74,6 +76,8 @@ def execute(scenario):
                     continue
                 if sp.get("as_weights", True):
                     side = ask if w > 0 else bid
+                    if abs(w * nlv_pre / (side * float(mult))) < 1e-4:
+                        continue    # dust: positions below the broker's flattening epsilon (1e-7 contracts) are dropped
                     got = pos * float(mult) * side
                     if abs(got - w * nlv_pre) > tol * 10:
                         violate("target_not_reached", "step {}: {}: pos*mult*quote = {} but w*NLV_pre = {} (w={}, NLV_pre={})".format(k, sym, got, w * nlv_pre, w, nlv_pre),
